@@ -171,7 +171,7 @@ theorem atomic_replace_safe (path : String) (old new : List Nat) (s : Fs) (ops :
     ∀ k c, IsImage (run s (ops.take k)) path c → c = old ∨ c = new :=
   shape_safe_from path old new ops .start s ⟨hs, hnew⟩ hshape
 
-/-- and the config path always exists during an atomic replace (there is an image at every prefix) -/
+/-- after the complete save the only image is the new content (the save is durable once it returns) -/
 theorem atomic_replace_complete (path : String) (old new : List Nat) (s : Fs) (ops : List FsOp)
     (hs : Base path old s) (hshape : isAtomicReplace path ops = true) (hnew : pending ops = new) :
     ∀ c, IsImage (run s ops) path c → c = new := by
@@ -198,6 +198,47 @@ theorem atomic_replace_complete (path : String) (old new : List Nat) (s : Fs) (o
       · rename_i ph' hn
         exact ih ph' (step s op) (inv_step h hn hs') hs' c hc
       · simp at hs'
+
+theorem inv_exists {path : String} {old new : List Nat} {ph : Phase} {s : Fs} {rest : List FsOp}
+    (h : Inv path old new ph s rest) : ∃ c, IsImage s path c := by
+  have pre : ∀ tmp i1, Pre path old tmp i1 s → ∃ c, IsImage s path c := by
+    intro tmp i1 ⟨i0, hd, hf, _⟩
+    exact ⟨old, i0, hd, old.length, by simp [hf], by simp [hf], by simp [hf]⟩
+  cases ph with
+  | start =>
+    obtain ⟨⟨i0, hd, hf, _⟩, _⟩ := h
+    exact ⟨old, i0, hd, old.length, by simp [hf], by simp [hf], by simp [hf]⟩
+  | writing fd tmp => obtain ⟨i1, hp, _⟩ := h; exact pre tmp i1 hp
+  | synced fd tmp => obtain ⟨i1, hp, _⟩ := h; exact pre tmp i1 hp
+  | closed tmp => obtain ⟨i1, hp, _⟩ := h; exact pre tmp i1 hp
+  | done o =>
+    obtain ⟨i1, hd, hf⟩ := h
+    exact ⟨new, i1, hd, new.length, by simp [hf], by simp [hf], by simp [hf]⟩
+
+/-- the config path exists (has an image) after every prefix of an atomic replace: the statement of
+`atomic_replace_safe` is never vacuous -/
+theorem atomic_replace_exists (path : String) (old new : List Nat) (s : Fs) (ops : List FsOp)
+    (hs : Base path old s) (hshape : isAtomicReplace path ops = true) (hnew : pending ops = new) :
+    ∀ k, ∃ c, IsImage (run s (ops.take k)) path c := by
+  suffices h : ∀ (ops : List FsOp) (ph : Phase) (s : Fs), Inv path old new ph s ops →
+      shapeFrom path ph ops = true → ∀ k, ∃ c, IsImage (run s (ops.take k)) path c from
+    h ops .start s ⟨hs, hnew⟩ hshape
+  intro ops
+  induction ops with
+  | nil => intro ph s h _ k; simpa [run] using inv_exists h
+  | cons op rest ih =>
+    intro ph s h hsh k
+    cases k with
+    | zero => simpa [run] using inv_exists h
+    | succ k =>
+      rw [List.take_succ_cons, run_cons]
+      have hs' := hsh
+      rw [shapeFrom] at hs'
+      split at hs'
+      · rename_i ph' hn
+        exact ih ph' (step s op) (inv_step h hn hs') hs' k
+      · simp at hs'
+
 
 /-- **truncate_in_place_unsafe.** If the save opens the config path itself with truncation, the crash
 image right after that first operation is the empty file: neither the (non-empty) old nor the
